@@ -381,7 +381,7 @@ pub fn monitor(tier: Tier) -> Monitor {
             "ErrorKind::Interrupted may be retried (Ok with the right output) or reported (Err); only ErrorKind::Other must surface".into(),
             "a fault at a call the run never makes is not a fault (counted as faults_not_reached)".into(),
         ],
-        families: vec![Family { name: "jobs", count: tier.pick(1100, 44_000), priority: false, enumerated: false, run: fam_jobs }],
+        families: vec![Family { name: "jobs", count: tier.pick(3300, 66_000), priority: false, enumerated: false, run: fam_jobs }],
         label,
         floors,
         summarize: no_summary,
